@@ -66,6 +66,9 @@ package p2p
 // lock-discipline obligation (the lock is held at both call sites); it does not explore schedules.
 //@   callsite Seal requires[sealordered] mutexHeld(&c.send.Mutex)
 //@   callsite Write requires[wireordered] c.send.aead != nil ==> mutexHeld(&c.send.Mutex)
+// the nonce a frame was sealed with is spent BEFORE the frame is handed to the network: a write that fails part-way
+// (some of the frame may be on the wire) can never lead to a second frame sealed under the same nonce
+//@   callsite Write requires[noncespent] c.send.aead != nil ==> le64(bytes(c.send.nonce[4:12])) != sealedNonce(c.send.aead)
 //@   ensures[all] isnil(err) && old(c.send.aead) != nil ==> n == old(len(data))
 // Read never hands out more than one decrypted chunk, never more than the buffer holds, delivers nothing
 // when the frame does not open (and then leaves the nonce alone), rejects a length header above
@@ -77,6 +80,14 @@ package p2p
 //@   callsite holdUnread requires[remainder] callee.bytesRead == min(len(data), chunkLength) && len(callee.chunk) == chunkLength && chunkLength <= crypto.MaxDataSize
 //@   ensures[bounded] old(c.receive.aead) != nil ==> 0 <= n && n <= len(data)
 //@   ensures[nodata] old(c.receive.aead) != nil && !isnil(err) ==> n == 0
+
+// ---- C18: an envelope goes onto the wire whole, in ONE write -----------------------------------------------------------
+// Whatever sendLengthPrefixed hands to the connection is the complete envelope - the 4-byte length followed by all of the
+// payload. (The connection underneath is the encrypted one, which reports 0 bytes for a failed write even when frames
+// of it are already on the wire: "resuming" with the rest, or with anything but the whole envelope, hands the receiver a
+// stream in which the declared length covers the head of one attempt and the start of the next.)
+//@ func sendLengthPrefixed
+//@   callsite Write requires[wholeenvelope] len(arg1) == len(bz) + 4 && bytes(arg1[4:]) == bytes(bz)
 
 // ---- C18: one message, one EOF ----------------------------------------------------------------------------------
 // the packets of a message are its chunks in order, all on the message's topic, and exactly the LAST one carries
@@ -153,3 +164,7 @@ package p2p
 //@   modifies ghost(mutexHeld)
 //@ func (*P2P).NewConnection
 //@   ensures[samepeerinfo] isnil(result1) ==> result0 != nil && result0.peerInfo == info
+// C17: everything the multiplexer sends and receives after the handshake goes through the encrypted connection the
+// handshake of THIS call returned - not the raw socket underneath it - and the connection is addressed by the peer
+// address that handshake authenticated
+//@   ensures[encrypted] isnil(result1) ==> typeis(result0.conn, *EncryptedConn) && dyn(result0.conn, *EncryptedConn) == resultof(NewHandshake, 0) && result0.Address == resultof(NewHandshake, 0).Address
